@@ -13,6 +13,21 @@ Fixpoint dval (b : Z) (ds : list Z) (acc : Z) : Z :=
 
 Definition valid_base (base : Z) : Prop := base = 0 \/ 2 <= base <= 36.
 
+Lemma base_ok_spec base : base_ok base = true <-> valid_base base.
+Proof.
+  unfold base_ok, valid_base. rewrite orb_true_iff, andb_true_iff, Z.eqb_eq, !Z.leb_le. tauto.
+Qed.
+
+Lemma strto_core_valid base s : valid_base base -> strto_core base s = strto_core_v base s.
+Proof. intro H. unfold strto_core. rewrite (proj2 (base_ok_spec base) H). reflexivity. Qed.
+
+(* any other base: glibc converts nothing (and does not write endptr) *)
+Lemma strto_core_invalid base s : ~ valid_base base -> strto_core base s = (false, 0, 0%nat).
+Proof.
+  intro H. unfold strto_core. destruct (base_ok base) eqn:E; [|reflexivity].
+  exfalso. apply H, base_ok_spec, E.
+Qed.
+
 (* the unsigned body of a numeral in [base] and its magnitude *)
 Inductive numeral (base : Z) : list Z -> Z -> Prop :=
 | num_plain : forall ds b,
@@ -145,7 +160,7 @@ Lemma core_complete base ws1 sg body ws2 neg mag :
 Proof.
   intros Hb H1 H2 Hs Hn.
   destruct (numeral_head base body mag Hb Hn) as (Bne & Bsp & B45 & B43 & Bmag).
-  unfold strto_core. cbv zeta.
+  rewrite (strto_core_valid base _ Hb). unfold strto_core_v. cbv zeta.
   assert (Hhd : is_space (nth 0 (sg ++ body ++ ws2) 0) = false).
   { destruct Hs as [[-> _]|[[-> _]|[-> _]]]; cbn [app nth]; try reflexivity.
     destruct body; [congruence|]. exact Bsp. }
@@ -241,7 +256,7 @@ Lemma core_sound base s neg mag e :
   exists ws1 sg body, s = ws1 ++ sg ++ body ++ skipn e s /\ Forall blank ws1 /\
                       sign_of sg neg /\ numeral base body mag.
 Proof.
-  intros Hb H He Ht. unfold strto_core in H.
+  intros Hb H He Ht. rewrite (strto_core_valid base s Hb) in H. unfold strto_core_v in H.
   destruct (skip_ws_eq s) as (ws1 & Es & Hws1 & Hc).
   set (s1 := skip_ws s) in *. set (c := nth 0 s1 0) in *.
   (* the sign split *)
@@ -378,15 +393,30 @@ Proof.
     rewrite R2. reflexivity.
 Qed.
 
-Lemma toi_exact_l base s v : valid_base base ->
-  (toi base s = Some v <-> well_formed base s v /\ INT_MIN <= v <= INT_MAX).
+(* the repaired wrappers refuse a base the strtol family does not accept before calling it *)
+Lemma guarded_exact (f g : Z -> list Z -> option Z) (P : Z -> Prop) base s v :
+  (forall b x, f b x = if negb (base_ok b) then None else g b x) ->
+  (valid_base base -> (g base s = Some v <-> well_formed base s v /\ P v)) ->
+  (f base s = Some v <-> valid_base base /\ well_formed base s v /\ P v).
 Proof.
-  intro Hb. apply (signed_wrapper_exact LONG_MIN LONG_MAX INT_MIN INT_MAX base s v Hb); vm_compute; discriminate.
+  intros Hf Hg. rewrite Hf. destruct (base_ok base) eqn:E; cbn [negb].
+  - apply base_ok_spec in E. rewrite (Hg E). tauto.
+  - split; [discriminate|]. intros [Hb _]. apply base_ok_spec in Hb. congruence.
 Qed.
 
-Lemma tol_as_wrapper base s : tol base s = signed_wrapper LONG_MIN LONG_MAX LONG_MIN LONG_MAX base s.
+Lemma toi_exact_l base s v :
+  toi base s = Some v <-> valid_base base /\ well_formed base s v /\ INT_MIN <= v <= INT_MAX.
 Proof.
-  unfold tol, signed_wrapper, strtol_model, strtos.
+  apply (guarded_exact toi (signed_wrapper LONG_MIN LONG_MAX INT_MIN INT_MAX) (fun v => INT_MIN <= v <= INT_MAX)).
+  - intros b x. reflexivity.
+  - intro Hb. apply (signed_wrapper_exact LONG_MIN LONG_MAX INT_MIN INT_MAX base s v Hb); vm_compute; discriminate.
+Qed.
+
+Lemma tol_as_wrapper base s :
+  tol base s = if negb (base_ok base) then None else signed_wrapper LONG_MIN LONG_MAX LONG_MIN LONG_MAX base s.
+Proof.
+  unfold tol. destruct (negb (base_ok base)); [reflexivity|].
+  unfold signed_wrapper, strtol_model, strtos.
   destruct (strto_core base s) as [[neg mag] e].
   set (sv := if neg then - mag else mag).
   assert (K : forall ret er, LONG_MIN <= ret <= LONG_MAX ->
@@ -404,10 +434,12 @@ Proof.
   apply K. breflect. lia.
 Qed.
 
-Lemma tol_exact_l base s v : valid_base base ->
-  (tol base s = Some v <-> well_formed base s v /\ LONG_MIN <= v <= LONG_MAX).
+Lemma tol_exact_l base s v :
+  tol base s = Some v <-> valid_base base /\ well_formed base s v /\ LONG_MIN <= v <= LONG_MAX.
 Proof.
-  intro Hb. rewrite tol_as_wrapper. apply signed_wrapper_exact; [exact Hb|lia|lia].
+  apply (guarded_exact tol (signed_wrapper LONG_MIN LONG_MAX LONG_MIN LONG_MAX) (fun v => LONG_MIN <= v <= LONG_MAX)).
+  - intros b x. apply tol_as_wrapper.
+  - intro Hb. apply signed_wrapper_exact; [exact Hb|lia|lia].
 Qed.
 
 (* ---------- unsigned wrappers ---------- *)
@@ -493,20 +525,22 @@ Proof.
     rewrite Z0. reflexivity.
 Qed.
 
-Lemma tou_exact_l base s v : valid_base base ->
-  (tou base s = Some v <-> well_formed base s v /\ 0 <= v <= UINT_MAX).
+Lemma tou_exact_l base s v :
+  tou base s = Some v <-> valid_base base /\ well_formed base s v /\ 0 <= v <= UINT_MAX.
 Proof.
+  apply (guarded_exact tou (unsigned_wrapper ULONG_MAX UINT_MAX (fun ret er => er || (ret >? UINT_MAX)))
+                       (fun v => 0 <= v <= UINT_MAX)); [intros b x; reflexivity|].
   intro Hb.
-  change (tou base s) with (unsigned_wrapper ULONG_MAX UINT_MAX (fun ret er => er || (ret >? UINT_MAX)) base s).
   apply unsigned_wrapper_exact; [exact Hb|vm_compute; split; discriminate|].
   intros ret er Rr Hu. rewrite orb_false_iff, Z.gtb_ltb, Z.ltb_ge. tauto.
 Qed.
 
-Lemma toul_exact_l base s v : valid_base base ->
-  (toul base s = Some v <-> well_formed base s v /\ 0 <= v <= ULONG_MAX).
+Lemma toul_exact_l base s v :
+  toul base s = Some v <-> valid_base base /\ well_formed base s v /\ 0 <= v <= ULONG_MAX.
 Proof.
+  apply (guarded_exact toul (unsigned_wrapper ULONG_MAX ULONG_MAX (fun ret er => (ret =? ULONG_MAX) && er))
+                       (fun v => 0 <= v <= ULONG_MAX)); [intros b x; reflexivity|].
   intro Hb.
-  change (toul base s) with (unsigned_wrapper ULONG_MAX ULONG_MAX (fun ret er => (ret =? ULONG_MAX) && er) base s).
   apply unsigned_wrapper_exact; [exact Hb|vm_compute; split; discriminate|].
   intros ret er Rr Hu. rewrite andb_false_iff. split.
   - intros [H|H]; [|split; [exact H|lia]]. destruct er; [|split; [reflexivity|lia]].
@@ -524,19 +558,31 @@ Example parse_witnesses :
   tol 10 [57;50;50;51;51;55;50;48;51;54;56;53;52;55;55;53;56;48;55] = Some LONG_MAX /\
   toul 10 [49;56;52;52;54;55;52;52;48;55;51;55;48;57;53;53;49;54;49;53] = Some ULONG_MAX /\
   toul 10 [49;56;52;52;54;55;52;52;48;55;51;55;48;57;53;53;49;54;49;54] = None /\
-  toi 0 [48;120] = None /\ toi 0 [48;55;55] = Some 63.
+  toi 0 [48;120] = None /\ toi 0 [48;55;55] = Some 63 /\
+  toi 1 [49] = None /\ toul 37 [49] = None /\ tol (-10) [49] = None /\ tou 36 [122] = Some 35.   (* bases 1, 37, -10: refused *)
 Proof. vm_compute. repeat split; reflexivity. Qed.
 
 (* ---------- float wrappers: logic over the abstract libc result ---------- *)
-Lemma tofloat_exact_l : forall s consumed is_inf er,
-  tofloat s consumed is_inf er = true <->
-  consumed <> 0%nat /\ Forall blank (skipn consumed s) /\ ~ (is_inf = true /\ er = true).
+Lemma tofloat_exact_l : forall s consumed er,
+  tofloat s consumed er = true <->
+  consumed <> 0%nat /\ Forall blank (skipn consumed s) /\ er = false.
 Proof.
-  intros s consumed is_inf er. unfold tofloat.
+  intros s consumed er. unfold tofloat.
   destruct (consumed =? 0)%nat eqn:E0.
   - apply Nat.eqb_eq in E0. split; [discriminate|]. intros [H _]. congruence.
   - apply Nat.eqb_neq in E0. destruct (tail_ok s consumed) eqn:T; cbn [negb].
-    + apply tail_ok_spec in T. destruct is_inf, er; cbn [andb]; split; try discriminate; try (intros _; repeat split; try assumption; intros [? ?]; discriminate).
-      intros (_ & _ & H). exfalso. apply H. split; reflexivity.
+    + apply tail_ok_spec in T. destruct er.
+      * split; [discriminate|]. intros (_ & _ & H). discriminate.
+      * split; [|reflexivity]. intros _. repeat split; assumption.
     + split; [discriminate|]. intros (_ & H & _). apply tail_ok_spec in H. congruence.
 Qed.
+
+(* non-vacuity: "1e-50" as a float (ERANGE: underflow to zero) and "1e39 " (ERANGE: overflow) are refused,
+   "0" and " 1.5 " are accepted, "1.5x" is refused *)
+Example tofloat_witnesses :
+  tofloat [49;101;45;53;48] 5 true = false /\
+  tofloat [49;101;51;57;32] 4 true = false /\
+  tofloat [48] 1 false = true /\
+  tofloat [32;49;46;53;32] 4 false = true /\
+  tofloat [49;46;53;120] 3 false = false.
+Proof. vm_compute. repeat split; reflexivity. Qed.
